@@ -1245,11 +1245,66 @@ func round7(w *World, r *Report, prop string) {
 		r.Rule("R17.13", "an identityref value is accepted in the form valid for the node: identityref.Validate compares the token with Identity.Val (bare for identities of the node's module, module-qualified otherwise), not with the bare name", 1)
 		r.guard("R17.13", func() { r7IdentityrefComparesVal(w, r, "R17.13") })
 	case "C18":
+		r.Rule("R18.18", "choices at the top of a module are choices of the model set: NewModelSet registers every top-level choice of every module (addChoice on every round of the loop over mod.Choices()) — the flattened children it also adds contain no choice nodes, so defaults and mandatory checks at the root depend on it", 1)
+		r.guard("R18.18", func() {
+			f := w.SSAFunc(w.Func("schema", "NewModelSet"))
+			if f == nil {
+				panic(undecided{"schema.NewModelSet"})
+			}
+			// a loop whose range is mod.Choices() and that calls addChoice on every round
+			ok := false
+			for _, l := range ssaLoops(f) {
+				overChoices := false
+				for _, e := range l.Entries {
+					for _, in := range e.Instrs {
+						if c, isC := in.(*ssa.Call); isC && c.Call.IsInvoke() && nm(c.Call.Method) == "Choices" {
+							overChoices = true
+						}
+					}
+				}
+				if !overChoices {
+					continue
+				}
+				body := l.body()
+				for b := range body {
+					for _, in := range b.Instrs {
+						if c, isC := in.(*ssa.Call); isC && c.Call.StaticCallee() != nil && nm(c.Call.StaticCallee()) == "addChoice" {
+							every := true
+							for _, lt := range l.Latches {
+								every = every && (b == lt || b.Dominates(lt))
+							}
+							ok = ok || every
+						}
+					}
+				}
+			}
+			r.Check(ok, "R18.18", "NewModelSet registers the modules' top-level choices", f.Pos(), "for each mod.Choices(): ms.addChoice(choice)", "the choices declared directly at module level are not registered with the model set: at the root every case's defaults are added, a mandatory top-level choice is not enforced and mandatory leaves of inactive top-level cases are demanded")
+		})
 		r.Rule("R18.16", "an active case is checked for mandatory nodes whatever else holds of its choice: in choiceHasMandatory the test which case is active (hasOneOf) is reached for every choice, by its kind alone", 1)
 		r.guard("R18.16", func() { r7ChoiceWithDefaultStillChecked(w, r, "R18.16") })
 		r.Rule("R18.17", "entries violate `unique` only when they agree on the values: getUniqueKey builds its key from the values themselves (no digest)", 1)
 		r.guard("R18.17", func() { r7UniqueKeyIsTheValues(w, r, "R18.17") })
 	case "C19":
+		r.Rule("R19.20", "the XML writer writes every child: inside the loop over the children, whether an element is opened depends on the kind of the child's schema node (and on the loop over its values) and on nothing else", 2)
+		r.guard("R19.20", func() { r8XMLWritesEveryChild(w, r, "R19.20") })
+		r.Rule("R19.19", "children keep the order they were given: datanode.YangDataChildren hands back the stored slice itself (entries of an ordered-by user list are children named by their keys: a sorted copy would reorder them in every encoding)", 1)
+		r.guard("R19.19", func() {
+			f := w.SSAFunc(w.Method("data/datanode", "datanode", "YangDataChildren"))
+			if f == nil {
+				panic(undecided{"datanode.YangDataChildren"})
+			}
+			good := true
+			n := 0
+			for _, b := range f.Blocks {
+				if ret, ok := b.Instrs[len(b.Instrs)-1].(*ssa.Return); ok && len(ret.Results) == 1 {
+					n++
+					if loadedFieldName(unspill(ret.Results[0])) != "children" {
+						good = false
+					}
+				}
+			}
+			r.Check(good && n > 0, "R19.19", "datanode.YangDataChildren returns the children as stored", f.Pos(), "return n.children", "the children are handed back as something other than the stored slice (a sorted or filtered copy): the order of list entries — user order for ordered-by user lists — is lost in JSON, RFC 7951 and XML alike")
+		})
 		r.Rule("R19.17", "a data node holds the values it was given: CreateDataNode stores its values argument as it stands (an empty string is a value)", 1)
 		r.guard("R19.17", func() {
 			r7FieldStoredAsGiven(w, r, "R19.17", "data/datanode", "CreateDataNode", "datanode", "values", "values", "a leaf of type empty or with the value \"\" has no value any more: the XML writer emits nothing for it, and the three encodings decode to different trees")
@@ -1257,6 +1312,8 @@ func round7(w *World, r *Report, prop string) {
 		r.Rule("R19.18", "the three encodings carry the same order: no writer of data/encoding sorts what it writes", 1)
 		r.guard("R19.18", func() { r7WritersKeepOrder(w, r, "R19.18") })
 	case "C20":
+		r.Rule("R20.12", "a choice is registered with its parent whatever survived inside it: in addChoiceToChoices the addChoice call is reached exactly when the child is a Choice (a choice whose cases lost all their nodes to the filter is still a node of the pruned schema)", 1)
+		r.guard("R20.12", func() { r8ChoiceRegistered(w, r, "R20.12") })
 		r.Rule("R20.10", "the opd predicate covers every opd node kind: IsOpd tests for OpdCommand, OpdOption and OpdArgument", 1)
 		r.guard("R20.10", func() { r7IsOpdKinds(w, r, "R20.10") })
 		r.Rule("R20.11", "a node that passes the filter survives: BuildNode hands on what the kind builders return and asks the built node nothing (its children were filtered before it)", 1)
@@ -1933,4 +1990,104 @@ func r8RangeLoopLeavesOnAcceptance(w *World, r *Report, rule string) {
 		}
 		r.Check(why == "", rule, typ+".Validate leaves the range loop only on acceptance", f.Pos(), "early exit ⇒ r.Validate(v) == nil", why+": a value no part accepted (e.g. one below the first range) leaves the loop with no error and is accepted")
 	}
+}
+
+// r8XMLWritesEveryChild (R19.20): in the XML child encoder whether and how a
+// child is written depends on the kind of its schema node alone.
+func r8XMLWritesEveryChild(w *World, r *Report, rule string) {
+	sym := NewSym(w)
+	sym.Expand = false
+	n := 0
+	for _, fn := range allFuncs(w.SSAPkg("data/encoding")) {
+		if isTestFile(w, fn.Pos()) || fn.Blocks == nil || len(ssaLoops(fn)) == 0 {
+			continue
+		}
+		for _, b := range fn.Blocks {
+			for _, in := range b.Instrs {
+				c, ok := in.(*ssa.Call)
+				if !ok || c.Call.StaticCallee() == nil || c.Call.StaticCallee().String() != "(*encoding/xml.Encoder).EncodeToken" || len(c.Call.Args) != 2 {
+					continue
+				}
+				mi, isMI := c.Call.Args[1].(*ssa.MakeInterface)
+				if !isMI || !strings.HasSuffix(mi.X.Type().String(), "xml.StartElement") {
+					continue
+				}
+				l, inLoop := outermostLoopOf(fn, b)
+				if !inLoop {
+					continue
+				}
+				n++
+				why := ""
+				for _, a := range sym.PathCond(l.Header, b, nil).atoms() {
+					switch {
+					case pcIsIter(a):
+					case a.op == token.LSS && a.x != nil && isRangeIndex(a.x):
+					default:
+						if ex, isEx := a.v.(*ssa.Extract); isEx && ex.Index == 1 {
+							if _, isTA := ex.Tuple.(*ssa.TypeAssert); isTA {
+								continue
+							}
+						}
+						why = a.key
+					}
+				}
+				r.Check(why == "", rule, fmt.Sprintf("%s: element #%d", funcKey(fn), n), c.Pos(), "written for every child of that schema kind", "whether the element is written also depends on `"+why+"`: some present nodes (an empty presence container, say) are left out of the XML text although the other encodings write them, so the text does not decode to the same tree")
+			}
+		}
+	}
+	if n == 0 {
+		panic(undecided{"data/encoding: no element is written inside a loop"})
+	}
+}
+
+// outermostLoopOf: the outermost natural loop of f that contains b.
+func outermostLoopOf(f *ssa.Function, b *ssa.BasicBlock) (ssaLoop, bool) {
+	var best ssaLoop
+	found := false
+	bestN := 0
+	for _, l := range ssaLoops(f) {
+		body := l.body()
+		if body[b] && (!found || len(body) > bestN) {
+			best, found, bestN = l, true, len(body)
+		}
+	}
+	return best, found
+}
+
+// r8ChoiceRegistered (R20.12): addChoiceToChoices registers the child exactly
+// when it is a Choice.
+func r8ChoiceRegistered(w *World, r *Report, rule string) {
+	f := w.SSAFunc(w.Func("schema", "addChoiceToChoices"))
+	if f == nil {
+		panic(undecided{"schema.addChoiceToChoices"})
+	}
+	sym := NewSym(w)
+	sym.Expand = false
+	n, why := 0, ""
+	for _, b := range f.Blocks {
+		for _, in := range b.Instrs {
+			c, ok := in.(*ssa.Call)
+			if !ok || c.Call.StaticCallee() == nil || nm(c.Call.StaticCallee()) != "addChoice" {
+				continue
+			}
+			n++
+			saw := false
+			msg := pcCompare(sym.PathCond(f.Blocks[0], b, nil), func(a *pcAtom) string {
+				if ex, isEx := a.v.(*ssa.Extract); isEx && ex.Index == 1 {
+					if ta, isTA := ex.Tuple.(*ssa.TypeAssert); isTA && strings.HasSuffix(ta.AssertedType.String(), "Choice") {
+						saw = true
+						return "choice"
+					}
+				}
+				return ""
+			}, func(env map[string]bool) bool { return env["choice"] })
+			if msg != "" || !saw {
+				why = "registering depends on more than the child being a Choice (" + msg + ")"
+			}
+		}
+	}
+	if n == 0 {
+		why = "addChoice is not called"
+	}
+	r.Check(why == "", rule, "addChoiceToChoices registers every choice", f.Pos(), "addChoice(child) ⇔ child is a Choice", why+": under a filter that removes the nodes inside a choice's cases the choice itself vanishes from its parent, although the pruned unfiltered schema keeps it")
 }
